@@ -351,7 +351,8 @@ def oracle_guard(j, got):
     if verb not in READ_VERBS and verb not in WRITE_VERBS:
         return None
     table = effective_table(j["table"])
-    cwd_parts = [c for c in j["cwd"].split("/") if c]
+    # (the working directory a session starts in is the user's home_path as given: it may hold `.` and `..`)
+    cwd_parts = py_walk([], j["cwd"])
     loc = cwd_parts[:-1] if verb == "cdup" else py_walk(cwd_parts, j["arg"])
     i = expected_index(table, loc)
     r, w = (True, True) if i == -1 else (table[i][1], table[i][2])
@@ -407,6 +408,18 @@ def build_jobs(ctx, scale=1):
         if g % 10 == 0:
             for verb in OTHER_VERBS:
                 jobs.append({"kind": "guard", "verb": verb, "table": t, "base": base, "cwd": cwd, "arg": al[0], "group": g})
+    # (2b) the working directory of a session that has not moved yet is the user's home_path AS GIVEN - with `..`, `.`
+    #      and doubled slashes if the configuration spells it so; a relative request made from there addresses the
+    #      location the whole spelling walks to
+    for g in range(ctx.pick(60, 600) * scale):
+        t = gen_table(rng)
+        comps = gen_path(rng)[:3]
+        home = rng.choice(["/a/../b", "/a/b/..", "/a/./b", "/b/../a/../b/a", "/../a", "/a//b/../b", "/x/y/../../a"])
+        arg = rng.choice(["/".join(comps) or ".", ".", "c", "../" + "/".join(comps), "./" + "/".join(comps)])
+        # (not CDUP: it goes to the LEXICAL parent of the stored working directory, which for a home spelled `/a/b/..`
+        #  is `/a/b` - a quirk of a configuration spelling the property does not list, see DESIGN 11.6)
+        for verb in rng.sample([v for v in READ_VERBS + WRITE_VERBS if v != "cdup"], 5):
+            jobs.append({"kind": "guard", "verb": verb, "table": t, "base": BASES[g % len(BASES)], "cwd": home, "arg": arg, "group": 10**6 + g})
     # (3) the loop as written, arbitrary permission tuples
     for g in range(ctx.pick(150, 1500) * scale):
         t = gen_table(rng)
